@@ -37,14 +37,114 @@ def clauses (o : Obs) : List (String × Bool) :=
 
 def holds (o : Obs) : Prop := ∀ c ∈ clauses o, c.2 = true
 
+/-- well-formed content of one array element / one float scalar.  Floats: the validators never store an infinity;
+for `float` (binary32) fields the round trip needs `narrow (widen x) = x` — an **explicit hypothesis** about the
+rounding (which is an opaque parameter of M4): it says that widening a stored `float` to `double` and casting back gives
+the same bits, which holds for everything except signalling NaNs (the validated API cannot store one: the C cast quiets
+them).  The driver evaluates it on every `float` the real code produced (`wfB`). -/
+def WFelem (vk : VK) (c : Bytes) : Prop :=
+  match vk with
+  | .flt .f64 => isInf64 (fromLE c) = false
+  | .flt .f32 => isInf32 (fromLE c) = false ∧ narrow (widen (fromLE c)) = fromLE c
+  | .strct _ _ => False
+  | _ => True
+
+/-- the shapes of leaf descriptors the validator classes can build (`String(len)` and `ByteArray(len)` assert
+`len > 1`; an `IntArray` of length 0 is refused by the message compiler — and would not round-trip: `max()` of an empty
+sequence) -/
+def leafOk : FTy → Bool
+  | .int _ | .flt _ | .char | .byte => true
+  | .str n => decide (1 < n)
+  | .arr .byteArray .byte n => decide (1 < n)
+  | .arr .intArray (.int _) n => decide (0 < n)
+  | .arr .floatArray (.flt _) _ => true
+  | _ => false
+
 /-- well-formed leaf content: what the validated field API can produce (strings: NUL-terminated ASCII followed by
-NULs only; chars ASCII; everything else: any bytes of the right length) -/
+NULs only; chars ASCII; floats: see `WFelem`; everything else: any bytes of the right length) -/
 def WF (ty : FTy) (b : Bytes) : Prop :=
   b.length = ty.size ∧ (∀ x ∈ b, x < 256) ∧
   match ty with
   | .char => ∀ x ∈ b, x < 128
   | .flt .f64 => isInf64 (fromLE b) = false          -- the validators never store an infinity
+  | .flt .f32 => WFelem (.flt .f32) b
   | .str n => ∃ cs : List Nat, (∀ c ∈ cs, 0 < c ∧ c < 128) ∧ cs.length ≤ n - 1 ∧ b = cs ++ List.replicate (n - cs.length) 0
+  | .arr _ vk n => ∀ c ∈ chunks vk.esize n b, WFelem vk c
   | _ => True
+
+/- well-formed content of a whole object of class `d`: every leaf well-formed, every padding byte zero (padding is
+never written through the field API; message definitions have none, C11) -/
+mutual
+def WFD : Desc → Bytes → Prop
+  | .leaf ty, b => leafOk ty = true ∧ WF ty b
+  | .strct fs tail, b => ∃ fb, b = fb ++ zeros tail ∧ WFF fs fb
+  | .sarr n e, b => b.length = n * e.size ∧ ∀ c ∈ chunks e.size n b, WFD e c
+def WFF : Fields → Bytes → Prop
+  | .nil, b => b = []
+  | .cons name pad d r, b =>
+    ∃ db rb, b = zeros pad ++ db ++ rb ∧ db.length = d.size ∧ WFD d db ∧ WFF r rb ∧ name ∉ r.names
+end
+
+/-! ### the same well-formedness, decidable (evaluated by the driver on the bytes the real code produced) -/
+def wfElemB (vk : VK) (c : Bytes) : Bool :=
+  match vk with
+  | .flt .f64 => !isInf64 (fromLE c)
+  | .flt .f32 => !isInf32 (fromLE c) && narrow (widen (fromLE c)) == fromLE c
+  | .strct _ _ => false
+  | _ => true
+
+def wfLeafB (ty : FTy) (b : Bytes) : Bool :=
+  b.length == ty.size && b.all (· < 256) &&
+  match ty with
+  | .char => b.all (· < 128)
+  | .flt .f64 => !isInf64 (fromLE b)
+  | .flt .f32 => wfElemB (.flt .f32) b
+  | .str n =>
+    let cs := upToNul b
+    cs.all (· < 128) && decide (cs.length ≤ n - 1) && b == cs ++ List.replicate (n - cs.length) 0
+  | .arr _ vk n => (chunks vk.esize n b).all (wfElemB vk)
+  | _ => true
+
+mutual
+def wfB : Desc → Bytes → Bool
+  | .leaf ty, b => leafOk ty && wfLeafB ty b
+  | .strct fs tail, b => wfFieldsB fs (b.take fs.size) && b.drop fs.size == zeros tail
+  | .sarr n e, b => b.length == n * e.size && (chunks e.size n b).all (fun c => wfB e c)
+def wfFieldsB : Fields → Bytes → Bool
+  | .nil, b => b.isEmpty
+  | .cons name pad d r, b =>
+    b.take pad == zeros pad && ((b.drop pad).take d.size).length == d.size && wfB d ((b.drop pad).take d.size) &&
+      wfFieldsB r (b.drop (pad + d.size)) && !(r.names.contains name)
+end
+
+/-! ## the floats of a message, and the class shapes JSON keeps apart -/
+def leafFloats (ty : FTy) (b : Bytes) : List Nat :=
+  match toDictLeaf ty b with
+  | .sc (.flt x) => [x]
+  | .seq _ xs => xs.filterMap fun s => match s with | .flt x => some x | _ => none
+  | _ => []
+
+mutual
+def floatsOf : Desc → Bytes → List Nat
+  | .leaf ty, b => leafFloats ty b
+  | .strct fs _, b => floatsOfFields fs b
+  | .sarr n e, b => (chunks e.size n b).flatMap fun c => floatsOf e c
+def floatsOfFields : Fields → Bytes → List Nat
+  | .nil, _ => []
+  | .cons _ pad d r, b => floatsOf d ((b.drop pad).take d.size) ++ floatsOfFields r (b.drop (pad + d.size))
+end
+
+/- struct arrays have at least one element and their elements are structs (what `StructArray` builds): that is how a
+decoded JSON list is recognised as a list of struct dictionaries -/
+mutual
+def descOkJ : Desc → Bool
+  | .leaf _ => true
+  | .strct fs _ => fieldsOkJ fs
+  | .sarr n e => decide (0 < n) && (match e with | .strct _ _ => true | _ => false) && descOkJ e
+def fieldsOkJ : Fields → Bool
+  | .nil => true
+  | .cons _ _ d r => descOkJ d && fieldsOkJ r
+end
+
 
 end Pyrtma.Serial
